@@ -88,6 +88,8 @@ def st_case(draw):
     nd = draw(st.integers(1, 3))
     hi = {1: 9, 2: 6, 3: 4}[nd]
     grid = [draw(st.integers(1, hi)) for _ in range(nd)]
+    if nd == 1 and draw(st.sampled_from([False] * 7 + [True])):
+        grid = [draw(st.integers(40, 200))]              # a long grid axis
     batch = [draw(st.integers(1, 3)) for _ in range(draw(st.integers(0, 2)))]
     if draw(st.booleans()):
         pts = [draw(st.integers(1, 6))]
